@@ -25,11 +25,12 @@ the stamp-relevant steps of `processAll` — `augmentStep_is_graft` shows a succ
 the `graft` constructor's forest with the augmenting tree's owner namespace, `uses_no_stamp` and
 `conversion_ops_no_stamp` show that every tree-building operation `toEntry` applies (add a child,
 merge without a namespace for uses and include, record errors, set a data field) keeps trees
-stamp-free — and the remaining steps (error recording, `Find` creating an absent rpc
-input/output, deviations) write no stamp.  The induction over `toEntry`'s fuel recursion that
-turns these into "every converted tree is stamp-free" (`toEntry_noStamp_statement`) and the
-composition (`processAll_built_statement`) are kept visible as statements; the end-to-end claim is
-what the correspondence runner checks on generated schemas with a Go-side provenance oracle.
+stamp-free — Props/C12Conv.lean carries this through `toEntry`'s fuel recursion
+(`toEntry_noStamp`, `conversion_forest_built`: the forest `Process` starts its augment phase from
+is `Built.init`) — and the remaining steps (error recording, `Find` creating an absent rpc
+input/output, deviations) write no stamp.  The composition through the augment loop and the
+deviation pass (`processAll_built_statement`) is kept visible as a statement; the end-to-end claim
+is what the correspondence runner checks on generated schemas with a Go-side provenance oracle.
 -/
 namespace Goyang.Props.C12
 open Goyang.Model
@@ -374,26 +375,16 @@ example : instantiatingModuleAt regRev { trees := [(0, nd "m" (kids := [nd "c"])
 
 /-! ### the end-to-end statement, kept visible -/
 
-/-- Not proved as a theorem: every tree `toEntry` returns, and every tree it keeps in its caches,
-is stamp-free, provided the caches it starts from are.  Proof route: induction on the fuel with
-this invariant; every step of the conversion is one of the operations of
-`conversion_ops_no_stamp` or a literal node without a stamp.  Not carried out because the
-conversion function is one 150-line definition that is still being extended (a proof by case
-analysis over its text would have to follow every edit); the premise of `Built.init` for the
-forest `processAll` starts from rests on it. -/
-def toEntry_noStamp_statement : Prop :=
-  ∀ (env : Env) (fuel : Nat) (root : Mod) (scope : List Stmt) (n : Stmt) (visiting : List NodeId) (st : TState),
-    ((∀ x ∈ st.cache, noStamp x.2 = true) ∧ (∀ x ∈ st.gcache, noStamp x.2 = true) ∧
-      (∀ x ∈ st.augs, noStampL x.2 = true)) →
-    let r := toEntry env fuel root scope n visiting st
-    noStamp r.1 = true ∧ (∀ x ∈ r.2.cache, noStamp x.2 = true) ∧ (∀ x ∈ r.2.gcache, noStamp x.2 = true) ∧
-      (∀ x ∈ r.2.augs, noStampL x.2 = true)
-
 /-- Not proved as a theorem (see the header): the forest of an error-free `processAll` run
 without deviations is `Built`, with a provenance that assigns every node of the initial trees to
-its tree's module and every grafted node to the module of the augment.  Its ingredients are the
-theorems above and `augmentStep_is_graft`; the claim itself is checked by the correspondence
-runner (Go-side provenance oracle on generated schemas). -/
+its tree's module and every grafted node to the module of the augment.  Proved: the start
+(`conversion_forest_built` in Props/C12Conv.lean: the converted forest is `Built.init` and every
+pending augment meets the premise of `graft`), each augment step (`augmentStep_is_graft`), the
+`FixChoice` step (constructor `fix` with `fixChoice_preserves`), and the theorem that gives the
+namespaces of any `Built` forest (`namespace_placedBy`).  Missing: threading these through
+`augmentLoop`/`augmentPass` (swap-remove bookkeeping, `Find` creating an absent rpc input/output,
+error recording on the root) to obtain `Built` for the final forest.  The claim itself is checked
+by the correspondence runner (Go-side provenance oracle on generated schemas). -/
 def processAll_built_statement : Prop :=
   ∀ (reg : Registry) (opts : Opts) (plug : Plug),
     (processAll reg opts plug).errors = [] →
